@@ -29,5 +29,10 @@ ROWS = {
   "property-based testing (rapid): reference formula per pixel, guard words, metamorphic read-containment, differential hash vs packed 4:4:4 form; crash attribution",
   "Generated YCbCr images of the accepted sizes over all six subsampling ratios, origins, parent margins (stride > width) and destination alignments go through every conversion entry (platform-selected, assembly wrapper, portable, ImageToGray, float64); oracles: every pixel within 2.0 of the portable formula evaluated at the pixel's plane offsets, guard words around the destination intact, destination bit-identical when everything outside the visible pixels changes, hashes equal to the packed 4:4:4 origin form up to threshold bits; a fatal fault is attributed to the case in flight and reported as a violation.",
   "Trusted: image.YCbCr.YOffset/COffset of the standard library, internal/imgen reference luminance, hooks in imagehash/transforms32. Subsampled images at negative coordinates are excluded (not representable by image.YCbCr itself). Read containment is observed only through its effect on the result or a fault."),
+
+ "C08": ("exploration",
+  "property-based testing (rapid): differential in-memory reader vs generated chunk schedules behind an instrumented io.ReadSeeker",
+  "Samples and encoder output in every container (as is, truncated, hostile edits) are decoded through every entry point once from memory and once through a reader that delivers generated chunk sizes (one byte, 1..7, 1..4096, buffer-boundary sizes, data together with EOF); digest and error text must be equal; every sample x entry is also run deterministically under the extreme schedules.",
+  "Trusted: the instrumented reader in internal/worker (legal per io.Reader). Inputs <= 256 KiB."),
 }
 NOT_APPLICABLE = {}
